@@ -301,3 +301,11 @@ func HTTPRequests() []*http.Request { panic("verifrt.HTTPRequests: engine only")
 
 // LastHTTPStatus returns the status the stubbed (*http.Client).Do answered last (engine only).
 func LastHTTPStatus() int { panic("verifrt.LastHTTPStatus: engine only") }
+
+// Go starts f as a second thread; Join runs it to completion. The engine interleaves the two threads
+// at every mutex acquisition (engine only).
+func Go(f func()) { panic("verifrt.Go: engine only") }
+func Join()       { panic("verifrt.Join: engine only") }
+
+// LockTrace lists every mutex acquisition so far as "<Lock|RLock>#<mutex number>@<thread A|B>" (engine only).
+func LockTrace() []string { panic("verifrt.LockTrace: engine only") }
